@@ -70,6 +70,8 @@ class Scenario:
         try:
             install(p, sim)
             verdict = sim.run(main)
+            if sim.clock_jumps:
+                sim.wall_offset()  # count the steps the run has lived through even if the code never read a clock afterwards
         finally:
             p.restore()
             prims.CURRENT[0] = None
